@@ -287,7 +287,7 @@ def check_compose(case, ctx):
             glob[d["name"]] = np.array(d["value"], dtype=float).reshape(-1)
         trajs["main"] = MainTraj(glob)
         parent = float(sum(ref.ev_top(t, trajs) for t in sp.get("parent_objective", [])))
-        if not close(rc["f"], f_sum + parent, 1e-9, 1e-9):
+        if not close(rc["f"], f_sum + parent, 1e-7, 1e-9):
             fails.append(Fail("objective-not-sum-of-stages", feats, {"composite": rc["f"], "sum_of_stages": f_sum, "parent_terms": parent}))
             return fails
         for c in sp.get("coupling", []):
@@ -298,14 +298,14 @@ def check_compose(case, ctx):
     rowsC = Rows.from_evals(evC)
     rest = rowsC
     for si, s in enumerate(stages):
-        rest, missing = subtract_rows(rest, Rows.from_evals(ev_alone[si]), rtol=1e-8, atol=1e-9)
+        rest, missing = subtract_rows(rest, Rows.from_evals(ev_alone[si]), rtol=1e-7, atol=1e-9)
         if missing.count():
             fails.append(Fail("stage-rows-missing", dict(feats, stage_method=s["method"]["cls"]), {"stage": s["name"], "missing": missing.count(), "first": (missing.eq + missing.ineq)[:2]}))
     exp = Rows()
     for j in range(len(coup[0])):
         vec = np.array([coup[i][j][1] for i in range(K)])
         (exp.add_eq if coup[0][j][0] == "e" else exp.add_ineq)(vec)
-    rest, missing = subtract_rows(rest, exp, rtol=1e-8, atol=1e-9)
+    rest, missing = subtract_rows(rest, exp, rtol=1e-7, atol=1e-9)
     if missing.count():
         fails.append(Fail("coupling-rows-missing", feats, {"missing": missing.count(), "expected": exp.count()}))
     if rest.count():
